@@ -277,6 +277,11 @@ func (c *Ctx) behavModuleG(dir string, methods []BMethod, generic bool, cfg stri
 	if strings.Contains(cfg, "  example.com/m:\n") {
 		files["root.go"] = "// Package m is the module's root package.\npackage m\n\ntype Unmocked struct{ N int }\n"
 	}
+	if strings.Contains(cfg, "      Alpha:\n") {
+		// sibling interfaces of the package under test, declared in files that sort before and after store.go
+		files["store/a_first.go"] = "package store\n\ntype Alpha interface {\n\tFirst(n int, rest ...string) (int, error)\n\tPing()\n}\n"
+		files["store/z_last.go"] = "package store\n\ntype Zeta interface {\n\tLast(s string) error\n}\n"
+	}
 	if strings.Contains(cfg, "example.com/m/decoy:") {
 		_, df := decoyPackages(nil)
 		for k, v := range df {
